@@ -98,7 +98,8 @@ fn replay_dir() -> String {
 
 fn write_replay<C: Serialize>(id: &str, tag: &str, case: &C, fail: &Fail) -> String {
     let path = format!("{}/{}-{}.json", replay_dir(), id, tag);
-    let v = json!({ "property": id, "signature": fail.signature, "detail": fail.detail, "case": case });
+    let case_value = fail.replay_case.clone().unwrap_or_else(|| serde_json::to_value(case).unwrap());
+    let v = json!({ "property": id, "signature": fail.signature, "detail": fail.detail, "case": case_value });
     std::fs::write(&path, serde_json::to_string_pretty(&v).unwrap()).expect("write replay");
     path
 }
@@ -505,9 +506,20 @@ impl<P: Prop> DynProp for P {
             println!("HARNESS-ERROR {}", e);
         }
         if !violations.is_empty() {
+            // at most two lines per failure class; every replay file is listed in the evidence file
+            let mut per_sig: BTreeMap<String, u32> = BTreeMap::new();
             for v in &violations {
-                println!("  failure [{}] {}", v.signature, v.detail.chars().take(600).collect::<String>());
-                println!("VIOLATION property={} replay={}", id, v.replay);
+                let n = per_sig.entry(v.signature.clone()).or_insert(0);
+                *n += 1;
+                if *n <= 2 {
+                    println!("  failure [{}] {}", v.signature, v.detail.chars().take(400).collect::<String>());
+                    println!("VIOLATION property={} replay={}", id, v.replay);
+                }
+            }
+            for (sig, n) in per_sig {
+                if n > 2 {
+                    println!("  ... and {} more failing cases of class [{}] (replay files under /verif/replays, listed in the evidence file)", n - 2, sig);
+                }
             }
             return 1;
         }
